@@ -412,7 +412,12 @@ impl TrackerEngine {
         match self.prop {
             // effects of clear_wasted are legitimately tied to physical collection,
             // which the compared runs are allowed to time differently
-            "C04" | "C06" => strip_ops(&mut c, true, true),
+            // (empty calls cannot be expressed in a batch request; simple trackers keep them)
+            "C04" => {
+                let batch = c.cfg.kind.is_batch();
+                strip_ops(&mut c, true, batch)
+            }
+            "C06" => strip_ops(&mut c, true, true),
             "C05" | "C20" | "C02" => strip_ops(&mut c, false, false),
             "C12" => strip_ops(&mut c, false, false),
             _ => {}
